@@ -240,9 +240,11 @@ def err_rule(ctx, r):
             v, d = classify_result(f, c)
             if v in ("returned", "try", "matched-used"):
                 r.ok(key, "%s %s" % (v, d), fn=f, nontrivial=(v != "returned"))
-            elif v in ("swallowed", "matched-dropped") and (f.path, c.path) in ERR_EXCEPTIONS:
-                # (the exception names the producer, not the spelling of the fallback: unwrap_or, a match, map_or)
-                r.ok(key, "table exception: %s" % ERR_EXCEPTIONS[(f.path, c.path)], fn=f)
+            elif v in ("swallowed", "matched-dropped", "returned") and (f.path.split("::{closure")[0], c.path) in ERR_EXCEPTIONS and \
+                    (v != "returned" or f.kind == "closure"):
+                # (the exception names the producer, not the spelling of the fallback: unwrap_or, a match, map_or, a closure
+                # of the function that yields the hint)
+                r.ok(key, "table exception: %s" % ERR_EXCEPTIONS[(f.path.split("::{closure")[0], c.path)], fn=f)
             else:
                 r.bad(key, "Result of %s at %s is %s (%s): an error would be lost" % (c.path, c.loc, v, d),
                       fn=f, loc=c.loc, construct=c.path)
